@@ -451,7 +451,8 @@ def run(ctx, configs=None):
                 if p.end != "return":
                     continue
                 rv = p.return_value()
-                if rv[0] == "agg" and rv[3] == "Err" and T.contains(rv, lambda x: T.is_call(x, r"Option::<T>::take$") and T.contains(x, lambda y: T.is_field(y, "deferred_error"))):
+                # Err(e) with e taken out of the deferred slot — built here, or in a helper and passed on with `?`
+                if classify_return(p) == "err" and T.contains(rv, lambda x: T.is_call(x, r"Option::<T>::take$") and T.contains(x, lambda y: T.is_field(y, "deferred_error"))):
                     n_err += 1
                     # returned before anything else is written or flushed
                     others = [cname(t2["func"]) for pos, blk, t2 in p.calls() if "writes" in eff.of_call(fl, blk, t2) or cname(t2["func"]).endswith("Write::flush")]
